@@ -52,6 +52,9 @@ type respSession struct {
 	*recSession
 	smu    sync.Mutex
 	script *respScript
+	queue  []*respScript // one script per scripted backend call, in the order the commands were sent
+	gate   chan struct{} // the first scripted call waits for it (all commands of a pipelined case are on the wire)
+	gated  bool
 }
 
 func newRespSession() *respSession { return &respSession{recSession: newRecSession()} }
@@ -62,13 +65,37 @@ func (s *respSession) setScript(sc *respScript) {
 	s.smu.Unlock()
 }
 
+// pushScripts installs the scripts of the next case's commands.
+func (s *respSession) pushScripts(q []*respScript, gate chan struct{}) {
+	s.smu.Lock()
+	s.queue = q
+	s.gate = gate
+	s.gated = false
+	s.smu.Unlock()
+}
+
 func (s *respSession) sc() *respScript {
 	s.smu.Lock()
-	defer s.smu.Unlock()
-	if s.script == nil {
+	var gate chan struct{}
+	if !s.gated && s.gate != nil {
+		gate = s.gate
+		s.gated = true
+	}
+	var sc *respScript
+	if len(s.queue) > 0 {
+		sc = s.queue[0]
+		s.queue = s.queue[1:]
+	} else {
+		sc = s.script
+	}
+	s.smu.Unlock()
+	if gate != nil {
+		<-gate
+	}
+	if sc == nil {
 		return &respScript{}
 	}
-	return s.script
+	return sc
 }
 
 func (s *respSession) Fetch(w *imapserver.FetchWriter, numSet imap.NumSet, options *imap.FetchOptions) error {
